@@ -1,10 +1,11 @@
 use crate::common::Property;
+pub mod c01;
 pub mod c16;
 pub mod c17;
 pub mod c18;
 
 pub fn all() -> Vec<&'static dyn Property> {
-    vec![&c16::C16, &c17::C17, &c18::C18]
+    vec![&c01::C01, &c16::C16, &c17::C17, &c18::C18]
 }
 pub fn by_id(id: &str) -> Option<&'static dyn Property> {
     all().into_iter().find(|p| p.id() == id)
